@@ -257,6 +257,11 @@ theorem rerun_cause (s s' : St) (e : Ev) (r : Nat) (y : Rec)
     split at hs
     · simp at hs; subst hs; simp at hnew
     · cases hs
+  | envDo c =>
+    simp only [step, stepI] at hs
+    split at hs
+    · simp at hs; subst hs; simp at hnew
+    · cases hs
   | envCancelW a =>
     simp only [step, stepI] at hs
     split at hs
